@@ -135,6 +135,17 @@ def build_corpus(tier, rng):
                         continue      # explicit discriminants on data-carrying variants need a #[repr(int)]
                     add(it, "explicit")
 
+    # the integer type is the discriminant type however #[repr] is WRITTEN: several hints in one attribute, several attributes, any order
+    forms = lambda rp: [["C, %s" % rp], ["%s, C" % rp], ["C", rp], [rp, "C"], ["align(8)", rp], [rp, "align(4)"], ["%s, align(2)" % rp]]   # noqa: E731
+    for rp in ("u8", "i16", "u64", "isize"):
+        lo, hi = RANGES[rp]
+        for fi, form in enumerate(forms(rp)):
+            d0 = -2 if lo < 0 else 3
+            vs = [mk_variant("A", "tuple", False, d0), mk_variant("B", "unit", fi % 2 == 0), mk_variant("C", "named", False),
+                  mk_variant("D", "unit", False, 40), mk_variant("G", "unit", False)]
+            it = Item("E", vs, repr=rp)
+            it.repr_form = form
+            add(it, "repr-forms")
     # generics (type and const parameters); FromRepr does not support lifetimes
     for rp in ([None, "u8", "i16", "u64"] if not thorough else REPRS):
         for mask in range(8):
